@@ -60,6 +60,41 @@ fn lookup_bailiwick_filter(zone: Name, response: &mut VpResponse)
 //%end
 }
 
+// ---- the error arm of RecursorDnsHandle::lookup (statement range): an upstream NEGATIVE answer arrives as
+//      `Err(NetError::Dns(NoRecordsFound { soa, authorities, ns, .. }))`, i.e. an error CARRYING records of the response's
+//      authority section.  C19: "records whose owner lies outside the zone the answering server was delegated are never
+//      returned, cached, or used" -- that sentence does not distinguish positive from negative answers. ----
+pub struct NetError { pub records: VpRecords }          // the records a NoRecords error carries (none for other errors)
+impl NetError { #[verifier::external_body] pub fn clone(&self) -> (r: NetError) ensures r.records.v@ == self.records.v@ { unimplemented!() } }
+pub struct VpNegative { pub records: VpRecords }
+pub enum VpRecursorError { Negative(VpNegative), Other }
+impl VpRecursorError {
+    // RecursorError::from(NetError): a NoRecords error becomes RecursorError::Negative with the same soa / authorities
+    #[verifier::external_body]
+    pub fn from(e: NetError) -> (r: VpRecursorError) ensures r matches VpRecursorError::Negative(n) && n.records.v@ == e.records.v@ { unimplemented!() }
+}
+pub open spec fn all_in_bailiwick(zone: Name, recs: Seq<Record>) -> bool { forall|i: int| 0 <= i < recs.len() ==> in_bailiwick(zone, (#[trigger] recs[i]).name) }
+pub struct Query { pub vp: u64 }
+pub struct VpResponseCache { pub zone: Name }
+impl VpResponseCache {
+    // ResponseCache::insert of an error value; the precondition IS the property: nothing outside the bailiwick is cached
+    #[verifier::external_body]
+    pub fn insert(&self, query: Query, value: Result<VpResponse, NetError>, now: u64)
+        requires value matches Err(e) ==> all_in_bailiwick(self.zone, e.records.v@)
+    { unimplemented!() }
+}
+pub struct VpRecursor { pub response_cache: VpResponseCache }
+impl VpRecursor {
+    fn lookup_error_arm(&self, zone: Name, query: Query, error: NetError, now: u64) -> (r: Result<VpResponse, VpRecursorError>)
+        requires self.response_cache.zone == zone
+        ensures r matches Err(VpRecursorError::Negative(n)) ==> all_in_bailiwick(zone, n.records.v@)      // ... nor returned
+    {
+//%expr crates/resolver/src/recursor/handle.rs :: impl<P: ConnectionProvider> RecursorDnsHandle<P> :: lookup :: "warn!(?query, %error, \"lookup error\");" .. "return Err(RecursorError::from(error));"
+//%sub1 "RecursorError::from(error)" => "VpRecursorError::from(error)" # stand-in error type (only the records it carries matter)
+//%end
+    }
+}
+
 pub enum RecursorError { RecursionLimitExceeded { count: usize }, Other }
 impl RecursorError {
 //%fn crates/resolver/src/recursor/error.rs :: impl RecursorError :: recursion_exceeded
